@@ -82,6 +82,10 @@ def replay_mask_state(ctx, pid, st, k, rnd):
                 m2 = region.to_mask(mode='subpixels', subpixels=1)
                 if not (np.array_equal(m2.data, mask.data) and m2.bbox == mask.bbox):
                     ctx.violation(f'{pid}|n1|{kind_sig(s)}', "to_mask('subpixels', 1) differs from to_mask('center')", {'shape': s})
+            # 'center' mode takes no notice of a sub-pixel count given along with it
+            m3 = region.to_mask(mode='center', subpixels=[5, 2, 12][k % 3])
+            if not (np.array_equal(m3.data, mask.data) and m3.bbox == mask.bbox):
+                ctx.violation(f'{pid}|center-subpixels|{kind_sig(s)}', "to_mask('center', subpixels=n) differs from to_mask('center')", {'shape': s})
             vals = set(np.unique(mask.data).tolist())
             if not vals <= {0, 1, 0.0, 1.0}:
                 ctx.violation(f'{pid}|binary|{kind_sig(s)}', f'centre mask holds values {sorted(vals)[:5]}', {'shape': s})
